@@ -281,7 +281,9 @@ func c01(c *Ctx) {
 	if pt != nil {
 		op := p.patchRoles().POrigin
 		for _, fs := range storesToField(p.FuncsIn("internal/patch"), func(fv *types.Var, _ ssa.Value) bool { return fv == op }) {
-			okSrc := allAtoms(origins(fs.Store.Val), func(a Atom) bool {
+			samePkg := func(f *ssa.Function) bool { return relPkg(f) == "internal/patch" }
+			ats := originsDeepIn(fs.Store.Val, 3, samePkg)
+			okSrc := allAtoms(ats, func(a Atom) bool {
 				switch a.Kind {
 				case "param":
 					return true
@@ -290,28 +292,20 @@ func c01(c *Ctx) {
 				}
 				return false
 			})
-			r.Check(okSrc, "C01.R4", "patch origin in "+shortName(fs.Fn), p.Pos(posOf(fs.Store)), atomsString(origins(fs.Store.Val)),
-				"the patched address is computed ("+atomsString(origins(fs.Store.Val))+") instead of being the target's entry address: the jump lands inside or beside the function")
-		}
-		// and Pointer() is taken of the origin value, not of the replacement
-		for _, f := range p.FuncsIn("internal/patch") {
-			for _, cs := range callsTo(f, "(reflect.Value).Pointer") {
-				_, fv, ok := fieldRef(resolveLocal(callCommon(cs).Args[0]))
+			r.Check(okSrc, "C01.R4", "patch origin in "+shortName(fs.Fn), p.Pos(posOf(fs.Store)), atomsString(ats),
+				"the patched address is computed ("+atomsString(ats)+") instead of being the target's entry address: the jump lands inside or beside the function")
+			// and Pointer() is taken of the origin value, not of the replacement
+			for _, a := range ats {
+				cl, ok := a.V.(*ssa.Call)
+				if !ok || a.Name != "(reflect.Value).Pointer" {
+					continue
+				}
+				_, fv, ok := fieldRef(resolveLocal(cl.Call.Args[0]))
 				if !ok || fv == nil {
 					continue
 				}
-				cl := cs.(*ssa.Call)
-				for _, ref := range *cl.Referrers() {
-					if st, ok := ref.(*ssa.Store); ok {
-						if fa, ok := st.Addr.(*ssa.FieldAddr); ok {
-							dst := fieldVar(fa.X.Type(), fa.Field)
-							want := map[*types.Var]*types.Var{p.patchRoles().POrigin: p.patchRoles().POrigVal}
-							if w, ok := want[dst]; ok {
-								r.Check(fv == w, "C01.R4", dst.Name()+" taken from "+fv.Name()+" in "+shortName(f), p.Pos(posOf(cs)), "", "the entry address of the wrong function value is recorded ("+dst.Name()+" ← "+fv.Name()+".Pointer())")
-							}
-						}
-					}
-				}
+				w := p.patchRoles().POrigVal
+				r.Check(fv == w, "C01.R4", op.Name()+" taken from "+fv.Name()+" in "+shortName(cl.Parent()), p.Pos(posOf(cl)), "", "the entry address of the wrong function value is recorded ("+op.Name()+" ← "+fv.Name()+".Pointer())")
 			}
 		}
 	}
